@@ -337,7 +337,7 @@ def native_replay(o=None, ntrials=300):
             sel = rng.sample(its, rng.randint(1, nd))
             vs = rng.choice([[], ['a'], ['a', 'b']])
             vs_before = list(vs)
-            rl_s, rl_r = rng.choice([(0, 0), (1, 1), (1, 10), (10, 1)])
+            rl_s, rl_r = rng.choice([(0, 0), (1, 1), (1, 10), (10, 1), (10, 10), (12, 12), (3, 3), (9, 9), (100, 100), (1, 11), (21, 2)])
             aurel.save_data(param, data, it=list(sel), vars=vs, rl=rl_s)
             if vs != vs_before:
                 lines.append(f'save_data(vars={vs_before}) left the caller\'s list as {vs}')
@@ -364,6 +364,17 @@ def native_replay(o=None, ntrials=300):
                 elif [None if x is None else int(x) for x in r2['it']] != want:
                     lines.append(f'saved it={sel}; read_data(it={want}, vars={rv}, rl={rl_r}) returns it column {list(r2["it"])}, requested {want}')
                     bad = True
+            if not bad and rl_r == rl_s:
+                # discovery: with vars omitted or empty, exactly the variables saved at this level come back
+                saved_names = set(vs_before) if vs_before else {'a', 'b'}
+                for kw in (dict(vars=[]), dict()):
+                    allv = aurel.read_data(param, it=list(sel), rl=rl_r, **kw)
+                    got_names = {k for k in allv if k not in ('it', 't')}
+                    if got_names != saved_names:
+                        lines.append(f'saved it={sel} vars={vs_before or "all"} at rl={rl_s}; read_data(it={sel}, rl={rl_r}, {kw}) discovers variables '
+                                     f'{sorted(got_names)}, on disk at that level: {sorted(saved_names)}')
+                        bad = True
+                        break
             if not bad and rl_r != rl_s:
                 allv = aurel.read_data(param, it=list(sel), vars=[], rl=rl_r)
                 extra = [k for k in allv if k not in ('it', 't')]
